@@ -51,6 +51,57 @@ class If(Node):
         self.cond, self.a, self.b = cond, a, b
 
 
+def _call_free(e):
+    for n in ast.walk(e):
+        if isinstance(n, ast.Call) and not (isinstance(n.func, ast.Name) and n.func.id in ('len', 'isinstance')):
+            return False
+        if isinstance(n, (ast.Yield, ast.YieldFrom, ast.Await, ast.NamedExpr, ast.Lambda, ast.Subscript)):
+            return False
+    return True
+
+
+def _flag_tested(s):
+    if not isinstance(s, ast.If):
+        return None
+    t = s.test
+    if isinstance(t, ast.UnaryOp) and isinstance(t.op, ast.Not):
+        t = t.operand
+    return t.id if isinstance(t, ast.Name) else None
+
+
+def _leaf_arms(s):
+    out = [s.body]
+    if len(s.orelse) == 1 and isinstance(s.orelse[0], ast.If):
+        out.extend(_leaf_arms(s.orelse[0]))
+    else:
+        out.append(s.orelse)
+    return out
+
+
+def _sets_constant(s, flag):
+    for arm in _leaf_arms(s):
+        if arm and isinstance(arm[-1], ast.Assign) and len(arm[-1].targets) == 1 and isinstance(arm[-1].targets[0], ast.Name) and \
+                arm[-1].targets[0].id == flag and isinstance(arm[-1].value, ast.Constant):
+            return True
+    return False
+
+
+def _with_rest(s, rest):
+    import copy
+
+    def arm(b):
+        b = [x for x in b if not isinstance(x, ast.Pass)]
+        if b and _syn_ends(b):
+            return b
+        return b + [copy.deepcopy(r) for r in rest]
+    if len(s.orelse) == 1 and isinstance(s.orelse[0], ast.If):
+        orelse = [_with_rest(s.orelse[0], rest)]
+    else:
+        orelse = arm(s.orelse)
+    n = ast.If(test=s.test, body=arm(s.body), orelse=orelse)
+    return ast.copy_location(n, s)
+
+
 # names (as bound in the module under comparison) of generator functions every path of which yields before it finishes;
 # set by the loader (sa/alpha.py nonempty_generators) after checking the definitions in the current tree
 NONEMPTY = frozenset()
@@ -801,6 +852,32 @@ class Exec(object):
             if low is not None:
                 stmts = stmts[:i] + low + rest
                 continue
+            if isinstance(s, ast.Assign) and len(s.targets) == 1 and isinstance(s.targets[0], ast.Name) and rest and \
+                    isinstance(s.value, (ast.BoolOp, ast.Compare, ast.UnaryOp)) and _flag_tested(rest[0]) == s.targets[0].id and \
+                    _call_free(s.value) and not getattr(rest[0], '_named', False) and \
+                    not any(isinstance(n, ast.Name) and n.id == s.targets[0].id for n in ast.walk(s.value)):
+                # `flag = <call-free condition>` tested by the next statement: the test reads the condition itself
+                import copy
+                t0 = rest[0]
+                e = copy.deepcopy(s.value)
+                if isinstance(t0.test, ast.UnaryOp):
+                    e = ast.UnaryOp(op=ast.Not(), operand=e)
+                t1 = ast.copy_location(ast.If(test=ast.copy_location(e, t0.test), body=t0.body, orelse=t0.orelse), t0)
+                ast.fix_missing_locations(t1)
+                t1._named = True
+                stmts = stmts[:i + 1] + [t1] + rest[1:]
+                rest = stmts[i + 1:]
+            if isinstance(s, ast.If) and rest and len(rest) <= 4 and not getattr(s, '_flagged', False) and \
+                    not any(isinstance(x, (ast.For, ast.While, ast.Try, ast.With)) for r_ in rest for x in ast.walk(r_)):
+                # arms that end in `flag = <constant>` followed by `if flag:`: the short rest of the block is written into
+                # every arm that goes on (tail duplication), where the constant decides the test - a local flag that only
+                # carries "which arm was it" to a shared tail and the same decisions taken inside the arms are one form
+                flag = _flag_tested(rest[0])
+                if flag is not None and _sets_constant(s, flag):
+                    s2 = _with_rest(s, rest)
+                    s2._flagged = True
+                    stmts = stmts[:i] + [s2]
+                    continue
             if isinstance(s, ast.If):
                 done = self.do_if(s, rest, st, seq)
                 if done:
